@@ -305,4 +305,68 @@ theorem added_perm_translate (ops1 ops2 : List SDOp) (hp : ops1.Perm ops2) : ∀
   | swap x y l => intro a; cases x <;> cases y <;> simp [added]; try exact or_left_comm
   | trans _ _ ih1 ih2 => intro a; exact (ih1 a).trans (ih2 a)
 
+theorem listMin_congr (l1 l2 : List Int) (hm : ∀ x, x ∈ l1 ↔ x ∈ l2) : listMin l1 = listMin l2 := by
+  cases h1 : listMin l1 with
+  | none =>
+    have := listMin_none l1 h1; subst this
+    cases h2 : listMin l2 with
+    | none => rfl
+    | some m => have := (hm m).mpr (listMin_mem l2 m h2); simp at this
+  | some m =>
+    cases h2 : listMin l2 with
+    | none => have := listMin_none l2 h2; subst this; have := (hm m).mp (listMin_mem l1 m h1); simp at this
+    | some m' =>
+      have a1 := listMin_le l1 m h1 m' ((hm m').mpr (listMin_mem l2 m' h2))
+      have a2 := listMin_le l2 m' h2 m ((hm m).mp (listMin_mem l1 m h1))
+      have : m = m' := by omega
+      rw [this]
+
+/-- registrations only -/
+def regs (as : List Int) : List SDOp := as.map SDOp.addAtom
+
+theorem regs_state : ∀ (as : List Int) (d : StepData), d.literal = none →
+    (d.run (regs as)).1.literal = none ∧ (d.run (regs as)).2 = [] ∧
+    ∀ x, x ∈ (d.run (regs as)).1.literals ↔ (x ∈ d.literals ∨ x ∈ as) := by
+  intro as
+  induction as with
+  | nil => intro d h; simp [regs, StepData.run, h]
+  | cons a as ih =>
+    intro d h
+    have hl : (d.addAtom a).literal = none := by unfold StepData.addAtom; split <;> simp [h]
+    have hmem : ∀ x, x ∈ (d.addAtom a).literals ↔ (x ∈ d.literals ∨ x = a) := by
+      intro x
+      unfold StepData.addAtom
+      by_cases hc : d.literals.contains a = true
+      · rw [if_pos hc]
+        have : a ∈ d.literals := by simpa using hc
+        constructor
+        · exact Or.inl
+        · rintro (h1 | rfl)
+          · exact h1
+          · exact this
+      · rw [if_neg hc]; simp [or_comm]
+    obtain ⟨i1, i2, i3⟩ := ih (d.addAtom a) hl
+    simp only [regs, List.map_cons, StepData.run, StepData.step] at i1 i2 i3 ⊢
+    refine ⟨i1, by simp [i2], ?_⟩
+    intro x
+    rw [i3 x, hmem x]
+    simp [or_assoc]
+
+/-- The representative does not depend on the order (or multiplicity) in which the occurrences were registered: two
+    registration sequences with the same literals give the formula the same literal. -/
+theorem representative_order_independent (as bs : List Int) (fresh : Int) (hm : ∀ x, x ∈ as ↔ x ∈ bs) :
+    (StepData.run {} (regs as ++ [.translate (.own fresh)])).1.literal =
+    (StepData.run {} (regs bs ++ [.translate (.own fresh)])).1.literal := by
+  obtain ⟨a1, _, a3⟩ := regs_state as {} rfl
+  obtain ⟨b1, _, b3⟩ := regs_state bs {} rfl
+  rw [run_append, run_append]
+  simp only [StepData.run, StepData.step]
+  rw [representative _ fresh a1, representative _ fresh b1]
+  have : listMin (StepData.run {} (regs as)).1.literals = listMin (StepData.run {} (regs bs)).1.literals := by
+    apply listMin_congr
+    intro x
+    rw [a3 x, b3 x]
+    simp [hm x]
+  rw [this]
+
 end TelProofs.SD
